@@ -28,6 +28,16 @@ CRATES = {
                  "drcp-format/Cargo.toml", "Cargo.toml", "Cargo.lock"],
         harness_sub="pumpkin_solver",
     ),
+    "dimacs": dict(
+        package=None,
+        prefix="dimacs_gen::verif::",
+        args=["--lib"],
+        cwd=os.path.join(HARNESS_DIR, "dimacs_kani"),
+        repo_sources=["pumpkin-solver/src", "pumpkin-solver/Cargo.toml", "drcp-format/src",
+                      "Cargo.toml", "Cargo.lock"],
+        harness_sub="dimacs_kani",
+        harness_files=["tail.rs", "Cargo.toml", "src/lib.rs"],
+    ),
     "drcp-format": dict(
         package="drcp-format",
         prefix="verif_kani::",
@@ -71,16 +81,19 @@ def tree_hash(crate, harness=None, deps=()):
     its path dependencies, the lock file, the common harness infrastructure, the harness' own
     module file and the harness modules it imports."""
     spec = CRATES[crate]
-    files = list(COMMON_HARNESS_FILES) if spec["harness_sub"] == "pumpkin_solver" else []
-    if harness and "::" in harness:
-        files.append(harness.split("::")[0] + ".rs")
+    if "harness_files" in spec:
+        files = list(spec["harness_files"])
     else:
-        files.append("mod.rs")
-    files += [d + ".rs" for d in deps]
+        files = list(COMMON_HARNESS_FILES) if spec["harness_sub"] == "pumpkin_solver" else []
+        if harness and "::" in harness:
+            files.append(harness.split("::")[0] + ".rs")
+        files.append("mod.rs" if spec["harness_sub"] != "pumpkin_solver" else "native_kani.rs")
+        files += [d + ".rs" for d in deps]
     key = (crate, tuple(sorted(set(files))))
     with _hash_lock:
         if ("repo", crate) not in _tree_hash_cache:
-            _tree_hash_cache[("repo", crate)] = _hash_paths(spec["cwd"], spec["sources"])
+            _tree_hash_cache[("repo", crate)] = _hash_paths(
+                REPO, spec.get("repo_sources", spec.get("sources")))
         if key not in _tree_hash_cache:
             b = _hash_paths(os.path.join(HARNESS_DIR, spec["harness_sub"]), sorted(set(files)))
             _tree_hash_cache[key] = hashlib.sha256(
@@ -89,7 +102,7 @@ def tree_hash(crate, harness=None, deps=()):
 
 
 CHECK_RE = re.compile(
-    r"^Check (\d+): (\S+)\n\t - Status: (\w+)\n\t - Description: \"(.*?)\"\n\t - Location: (.*?)$",
+    r"^Check (\d+): ([^\n]+)\n\t - Status: (\w+)\n\t - Description: \"(.*?)\"\n\t - Location: (.*?)$",
     re.M | re.S,
 )
 
@@ -143,7 +156,7 @@ def kani_command(crate, harness, playback=False, extra=None):
     # division-by-zero panics are MIR assertions and stay on), and Kani's per-assertion
     # reachability covers (one extra SAT call each; vacuity is guarded by explicit
     # `kani::cover!` points instead). Unwinding assertions stay on.
-    cmd = ["cargo", "kani", "-p", spec["package"]] + spec["args"] + [
+    cmd = ["cargo", "kani"] + (["-p", spec["package"]] if spec["package"] else []) + spec["args"] + [
         "-Z", "stubbing", "-Z", "unstable-options", "--no-memory-safety-checks",
         "--no-overflow-checks", "--no-assertion-reach-checks",
         "--harness", spec["prefix"] + harness, "--exact"]
@@ -172,6 +185,9 @@ def run_kani(crate, harness, lane, timeout_s, mem_gb=24, playback=False, use_cac
         except Exception:
             pass
     spec = CRATES[crate]
+    if crate == "dimacs":
+        import gen_dimacs
+        gen_dimacs.generate()
     log_path = os.path.join(LOG_DIR, "%s%s.log" % (harness.replace("::", "__"),
                                                     ".playback" if playback else ""))
     env = dict(os.environ)
@@ -233,46 +249,52 @@ _replay_lock = threading.Lock()
 _replay_built = {}
 
 
-def build_replay(profile):
-    """Build /verif/replay (path dependency on /repo/pumpkin-solver) with --cfg pumpkin_verif."""
+def build_replay(profile, crate="pumpkin-solver"):
+    """Build the native replay binary (path dependency on /repo) with --cfg pumpkin_verif."""
+    which = "dimacs" if crate == "dimacs" else "main"
     with _replay_lock:
-        if profile in _replay_built:
-            return _replay_built[profile]
+        if (profile, which) in _replay_built:
+            return _replay_built[(profile, which)]
         env = dict(os.environ)
         env["PUMPKIN_VERIF_HARNESS"] = HARNESS_DIR
         env["RUSTFLAGS"] = "--cfg pumpkin_verif"
         env["CARGO_NET_OFFLINE"] = "true"
-        lock_src = os.path.join(REPO, "Cargo.lock")
-        lock_dst = os.path.join(ROOT, "replay", "Cargo.lock")
-        try:
-            if open(lock_src).read() != (open(lock_dst).read() if os.path.exists(lock_dst) else ""):
-                pass  # the replay crate keeps its own lock file (a superset is resolved offline)
-        except Exception:
-            pass
-        cmd = ["cargo", "build", "--offline", "--target-dir", REPLAY_TARGET]
+        if which == "dimacs":
+            import gen_dimacs
+            gen_dimacs.generate()
+            cwd = os.path.join(HARNESS_DIR, "dimacs_kani")
+            target = os.path.join(REPLAY_TARGET, "dimacs")
+            name = "dimacs-replay"
+        else:
+            cwd = os.path.join(ROOT, "replay")
+            target = REPLAY_TARGET
+            name = "verif-replay"
+        cmd = ["cargo", "build", "--offline", "--target-dir", target]
         if profile == "release":
             cmd.append("--release")
-        p = subprocess.run(cmd, cwd=os.path.join(ROOT, "replay"), env=env,
-                           stdout=subprocess.PIPE, stderr=subprocess.STDOUT, text=True)
-        binary = os.path.join(REPLAY_TARGET, "release" if profile == "release" else "debug",
-                              "verif-replay")
+        p = subprocess.run(cmd, cwd=cwd, env=env, stdout=subprocess.PIPE,
+                           stderr=subprocess.STDOUT, text=True)
+        binary = os.path.join(target, "release" if profile == "release" else "debug", name)
         ok = p.returncode == 0 and os.path.exists(binary)
-        _replay_built[profile] = (binary if ok else None, p.stdout[-3000:])
-        return _replay_built[profile]
+        _replay_built[(profile, which)] = (binary if ok else None, p.stdout[-3000:])
+        return _replay_built[(profile, which)]
 
 
-def native_replay(harness, values, profiles=("dev", "release"), timeout_s=120):
+def native_replay(harness, values, profiles=("dev", "release"), timeout_s=120,
+                  crate="pumpkin-solver"):
     """Run the harness body natively on the real unstubbed code with the concrete values.
     Returns list of dicts (profile, exit_code, result, panic)."""
     hexes = ",".join("".join("%02x" % b for b in v) for v in values)
     out = []
     for profile in profiles:
-        binary, build_log = build_replay(profile)
+        binary, build_log = build_replay(profile, crate)
         if binary is None:
             out.append(dict(profile=profile, result="build-failed", log=build_log))
             continue
         try:
-            p = subprocess.run([binary, harness, hexes], stdout=subprocess.PIPE,
+            argv = [binary, harness, hexes] if crate == "dimacs" else [binary, crate, harness,
+                                                                       hexes]
+            p = subprocess.run(argv, stdout=subprocess.PIPE,
                                stderr=subprocess.STDOUT, text=True, timeout=timeout_s)
             text = p.stdout
             code = p.returncode
